@@ -45,6 +45,7 @@ StepObsOK(o) ==
        /\ x.w = c.wbuf
        /\ x.r = (c.rp = "read")
        /\ x.peer = c.peer
+       /\ x.inmut                          \* Send never wrote to a slice it was handed
        /\ Ended(c) => x.g = 0              \* both session goroutines are gone
 
 (* real sockets: the client's view *)
